@@ -51,6 +51,7 @@ def compare(ctx, typ, c, tc, obj, case, what):
     else:
         ref, status, x, B = ref_lp.solve_animals(c, tc)
     ctx.event("lp_" + typ)
+    ctx.count()          # one evaluation = one linear programme compared with its independent reference
     if ref is None:
         ctx.event("reference_" + status)
         ctx.fail("reported-optimum-not-attainable:reference-infeasible:" + typ,
@@ -145,6 +146,29 @@ perturbation = st.fixed_dictionaries(dict(
     charge=st.sampled_from([0.0, 1.0]) | st.floats(0, 1)))
 
 
+def perturb_animals(c, tc, p):
+    """perturbed copy of a feed-round instance: supplies can only grow (the pinned human consumption must stay feasible),
+    the demand ceilings are redrawn"""
+    c, tc = copy.deepcopy(c), copy.deepcopy(tc)
+    N = c["NMONTHS"]
+    up = lambda k: 1.0 + np.resize(np.asarray(p[k], float), N) / 3.0      # noqa: E731  factors in [1, 2]
+    if c["ADD_STORED_FOOD"]:
+        c["stored_food"].initial_available.kcals = float(np.atleast_1d(np.asarray(c["stored_food"].initial_available.kcals, float))[0]) * (1 + p["stored"] / 3.0)
+    tc["outdoor_crops"].production.kcals = np.asarray(tc["outdoor_crops"].production.kcals, float) * up("crops")
+    tc["methane_scp"].kcals = np.asarray(tc["methane_scp"].kcals, float) * (1 + p["scp"] / 3.0)
+    tc["cellulosic_sugar"].kcals = np.asarray(tc["cellulosic_sugar"].kcals, float) * (1 + p["cs"] / 3.0)
+    tc["max_feed_that_could_be_used"].kcals = np.asarray(tc["max_feed_that_could_be_used"].kcals, float) * p["charge"] * 2.0
+    tc["max_biofuel_that_could_be_used"].kcals = np.asarray(tc["max_biofuel_that_could_be_used"].kcals, float) * p["milk"] / 1.5
+    return c, tc
+
+
+def solve_model_animals(c, tc):
+    from src.optimizer.optimizer import Optimizer
+    with quiet():
+        o = Optimizer(c, tc)
+        return o.optimize_feed_to_animals(c, tc, tc["min_human_food_consumption"])[3]
+
+
 def solve_model(c, tc):
     from src.optimizer.optimizer import Optimizer
     with quiet():
@@ -176,6 +200,18 @@ def run_case(ctx, iso3, options, perts, title):
             continue
         ctx.event("perturbed_solved")
         compare(ctx, "to_humans", c2, tc2, obj, case, "%s perturbed lp" % iso3)
+    animals = [cap for cap in caps if cap["type"] == "to_animals"]
+    for j, p in enumerate(perts[:1] if animals else []):
+        cap = animals[0]
+        c2, tc2 = perturb_animals(cap["consts"], cap["tc"], p)
+        case = dict(kind="perturbed_animals", iso3=iso3, options=options, perturbation=p)
+        try:
+            obj = solve_model_animals(c2, tc2)
+        except AssertionError:
+            ctx.abort("perturbed_feed_round_not_solved")
+            continue
+        ctx.event("perturbed_feed_round_solved")
+        compare(ctx, "to_animals", c2, tc2, obj, case, "%s perturbed feed-round lp" % iso3)
 
 
 def shard(ctx):
@@ -183,16 +219,14 @@ def shard(ctx):
 
     def body(case):
         (iso3, options), perts = case
-        ctx.count(len(perts))
         run_case(ctx, iso3, options, perts, "c02_%d_%d" % (ctx.shard, ctx.evaluations))
-    drive(ctx, st.tuples(case_strategy(), st.lists(perturbation, min_size=2, max_size=2)), body, 100 if thorough else 5, shrink=False, tag="runs")
+    drive(ctx, st.tuples(case_strategy(), st.lists(perturbation, min_size=2, max_size=2)), body, 100 if thorough else 5, shrink=False, tag="runs", count=False)
     if thorough:
         isos = model.iso3_list()
         for i, iso in enumerate(isos):
             if i % ctx.nshards != ctx.shard:
                 continue
             for b, bundle in enumerate(BUNDLES[:6]):
-                ctx.count()
                 try:
                     run_case(ctx, iso, dict(model.BASELINE_COUNTRY, **bundle), [], "c02e_%s_%d" % (iso, b))
                 except Violation as v:
@@ -205,6 +239,11 @@ def replay(case, ctx):
         run_case(ctx, case["iso3"], case["options"], [], "c02_replay")
         return
     r = model.run_case(case["iso3"], case["options"], title="c02_replay")
+    if case["kind"] == "perturbed_animals":
+        cap = [c for c in r["cap"].opt if c["type"] == "to_animals"][0]
+        c2, tc2 = perturb_animals(cap["consts"], cap["tc"], case["perturbation"])
+        compare(ctx, "to_animals", c2, tc2, solve_model_animals(c2, tc2), case, "replay")
+        return
     humans = [cap for cap in r["cap"].opt if cap["type"] == "to_humans"]
     cap = humans[case["which"]]
     c2, tc2 = perturb(cap["consts"], cap["tc"], case["perturbation"])
